@@ -207,6 +207,50 @@ def r02_2(ctx: Ctx):
                         ok = inside and f.name in ("update_genome", "evaluate")
                         if not ok:
                             obs.append(ctx.ob("R02.2", f, n, status=VIOLATION, detail=f"`{norm(n)[:70]}` writes rows of a population's array in place outside update_genome/evaluate"))
+    # in-place numpy operations on a population's arrays through aliases / views (outside Population)
+    INPLACE_METHODS = ("sort", "fill", "put", "itemset", "partition", "resize", "setfield", "clip")
+    for f in ctx.prog.all_functions():
+        if f.name == "<module>" or f.cls is pop:
+            continue
+        defs = local_defs(f)
+
+        def array_source(e, depth=0):
+            """text of the population array that e aliases (or is a view of), else None"""
+            if depth > 4:
+                return None
+            if isinstance(e, ast.Attribute) and e.attr in ("genomes", "fitnesses"):
+                return norm(e)
+            if isinstance(e, ast.Subscript):
+                # basic slices / single rows are views; boolean and integer-array indexing copy
+                sl = e.slice
+                basic = isinstance(sl, (ast.Slice, ast.Constant)) or (isinstance(sl, ast.Tuple) and all(isinstance(x, (ast.Slice, ast.Constant)) for x in sl.elts)) or (isinstance(sl, ast.Name) and sl.id in ("i", "j", "k", "idx", "index"))
+                return array_source(e.value, depth + 1) if basic else None
+            if isinstance(e, ast.Name) and e.id in defs:
+                srcs = [array_source(d, depth + 1) for d in defs[e.id] if not isinstance(d, ast.AugAssign)]
+                srcs = [x for x in srcs if x]
+                return srcs[0] if srcs else None
+            return None
+
+        for n in body_walk(f.node):
+            if isinstance(n, ast.AugAssign):
+                src = array_source(n.target)
+                if src and not (isinstance(n.target, ast.Subscript) and False):
+                    obs.append(ctx.ob("R02.2", f, n, status=VIOLATION, detail=f"`{norm(n)[:70]}` modifies `{src}` in place (through an alias / view): the population's rows no longer carry the objective value of their genome"))
+            elif isinstance(n, ast.Assign):
+                for t in n.targets:
+                    if isinstance(t, ast.Subscript) and isinstance(t.value, ast.Name):
+                        src = array_source(t.value)
+                        if src:
+                            obs.append(ctx.ob("R02.2", f, n, status=VIOLATION, detail=f"`{norm(n)[:70]}` writes into `{src}` through the alias `{t.value.id}`"))
+            elif isinstance(n, ast.Call):
+                outk = next((k.value for k in n.keywords if k.arg == "out"), None)
+                if outk is not None and array_source(outk):
+                    obs.append(ctx.ob("R02.2", f, n, status=VIOLATION, detail=f"`{norm(n)[:70]}` writes its result into `{array_source(outk)}` (out=)"))
+                if isinstance(n.func, ast.Attribute) and n.func.attr in INPLACE_METHODS and array_source(n.func.value) and (n.func.attr != "clip" or outk is not None):
+                    obs.append(ctx.ob("R02.2", f, n, status=VIOLATION, detail=f"`{norm(n)[:70]}` reorders / overwrites `{array_source(n.func.value)}` in place"))
+                fn = norm(n.func)
+                if fn.split(".")[-1] in ("shuffle", "fill_diagonal", "copyto", "put", "place", "putmask") and fn.split(".")[0] in ("np", "numpy", "random") and n.args and array_source(n.args[0]):
+                    obs.append(ctx.ob("R02.2", f, n, status=VIOLATION, detail=f"`{norm(n)[:70]}` mutates `{array_source(n.args[0])}` in place"))
     ug = pop.methods.get("update_genome")
     ev = pop.methods.get("evaluate")
     if ug is None or ev is None:
@@ -577,6 +621,9 @@ def r02_8(ctx: Ctx):
                                         return True
                         return False
 
+                    escapes = [n2 for n2 in cfg.nodes if n2.kind == "stmt" and isinstance(n2.ast, (ast.Assign, ast.AnnAssign)) and getattr(n2.ast, "value", None) is not None and isinstance(n2.ast.value, ast.Name) and n2.ast.value.id in names and any(isinstance(t, ast.Attribute) for t in (n2.ast.targets if isinstance(n2.ast, ast.Assign) else [n2.ast.target]))]
+                    for e2 in escapes:
+                        obs.append(ctx.ob("R02.8", f, e2.stmt, status=VIOLATION, detail=f"{f.short}: `{e2.label[:60]}` keeps a second reference (an attribute) to a list that is recorded in the history: later appends through that attribute change the recorded generation"))
                     later = [n2 for n2 in cfg.nodes if n2 is not node and mutates(n2) and cfg.can_reach(node, n2)]
                     if later:
                         obs.append(ctx.ob("R02.8", f, later[0].stmt, status=VIOLATION, detail=f"{f.short}: `{later[0].label[:60]}` mutates a list after it was recorded in the history (the recorded metaepoch changes afterwards)"))
